@@ -1,11 +1,11 @@
-_W = "offsets = base + d, base case-split over {0, 1%s}, d case-split inside the window; data bytes of the small writes symbolic; byte-wise presence probes, lowestOffset() and endOffset() after every operation; at the end hasContigousContentRange() for every sub-range of the window and copy() from every present byte of the window to its end"
+_W = "offsets = base + d, base case-split over {0, 2^40+7}%s, d case-split inside the window; data bytes of the small writes symbolic; byte-wise presence probes, lowestOffset() and endOffset() after every operation; at the end hasContigousContentRange() for every sub-range of the window and copy() from every present byte of the window to its end"
 SPEC = dict(
     harness="C49_stmem.cc", units=["src/stmem.cc", "src/mem_node.cc", "lib/Splay.cc"],
     entries=dict(
         quick=[
             dict(name="c49_window", bounds="every sequence of 3 operations, each a non-overlapping write of 1..2 bytes anywhere in a 5-byte window (any arrival order, adjacent or with gaps) or freeDataUpto(t) with t at any window position, 1 or beyond everything; " + _W % "",
                  reach=["done", "write", "released", "kept", "short-read", "full-read"], sample_every=1501),
-            dict(name="c49_page", bounds="node capacity boundary: one write of 4094..4098 concrete bytes at base, then every sequence of 2 operations (write of 1..2 bytes / freeDataUpto) in the 8-byte window base+4093..4100 (release targets also 1 and beyond everything); reads across the node boundary; " + _W % "",
+            dict(name="c49_page", bounds="node capacity boundary (base = 2^40+7 only): one write of 4094..4098 concrete bytes at base, then every sequence of 2 operations (write of 1..2 bytes / freeDataUpto) in the 8-byte window base+4093..4100 (release targets also 1 and beyond everything); reads across the node boundary; " + _W % "",
                  reach=["done", "write", "released", "kept", "short-read", "full-read"], sample_every=601),
             dict(name="c49_tree", bounds="splay shapes: single-byte nodes at base+{0,2,4,6,8} (base = 1): 4 of them written in every order, then every pair of operations from {one-byte presence query at a site, freeDataUpto(site+1), write of a remaining site}; then the checks of c49_window over base+0..9",
                  reach=["done", "write", "released", "kept", "short-read"], sample_every=1001),
@@ -13,11 +13,11 @@ SPEC = dict(
                  reach=["released-or-kept", "short-read", "full-read", "absent"], sample_every=23),
         ],
         thorough=[
-            dict(name="c49_window", bounds="as quick with every sequence of 4 operations and base also 3*4096+5; " + _W % ", 3*4096+5",
+            dict(name="c49_window", bounds="as quick with every sequence of 4 operations; " + _W % "",
                  reach=["done", "write", "released", "kept", "short-read", "full-read"], sample_every=20001),
-            dict(name="c49_page", bounds="as quick with every sequence of 3 operations and base also 3*4096+5", reach=["done", "write", "released", "kept", "short-read", "full-read"], sample_every=10001),
-            dict(name="c49_tree", bounds="as quick with 6 sites, 5 initial writes", reach=["done", "write", "released", "kept", "short-read"], sample_every=20001),
-            dict(name="c49_sparse", bounds="as quick with 3 writes and reads of 5 bytes", reach=["released-or-kept", "short-read", "full-read", "absent"], sample_every=301),
+            dict(name="c49_page", bounds="as quick with every sequence of 3 operations, (base = 2^40+7 only, as in quick)", reach=["done", "write", "released", "kept", "short-read", "full-read"], sample_every=10001),
+            dict(name="c49_tree", bounds="as quick with all 5 sites written in every order, then every sequence of 3 presence queries / freeDataUpto()", reach=["done", "write", "released", "kept", "short-read"], sample_every=20001),
+            dict(name="c49_sparse", bounds="as quick with writes of 1..3 bytes, n in {0,1,3,5} and copy(5 bytes at q)", reach=["released-or-kept", "short-read", "full-read", "absent"], sample_every=301),
         ]),
     timeout=dict(quick=170, thorough=1500),
     stubs=["Mem::AllocatorProxy: plain heap blocks of the object size", "debugs() disabled"],
